@@ -44,6 +44,18 @@ def gen_strings(ctx: Ctx):
         else:
             strs.append("".join(chr(rng.choice([rng.randrange(0x20, 0x7f), rng.randrange(0x80, 0x3000), rng.randrange(0x10000, 0x110000), 10, 39, 34]))
                                 for _ in range(n)))
+    # big strings (captured output, generated source): whatever is done differently above a size, the literal still has to read back
+    # (round-9 miss C12-92: another escaping path for strings of 5000 characters and more); text with backslashes in front of n / t / quotes
+    big_chunks = CHUNKS + ["\\n", "\\t", "\\'", '\\"', "C:\\new\\table", "print('a\\n')", "line\n", "line \n", "word ", "é", "\x1b[0m"]
+    for size in ([1200, 5200, 9000, 21000] if not ctx.thorough else [1200, 3000, 5200, 7000, 9000, 15000, 21000, 33000, 50000, 70000]):
+        for variant in range(2):
+            parts, n = [], 0
+            while n < size:
+                c = rng.choice(big_chunks)
+                parts.append(c)
+                n += len(c)
+            t = "".join(parts)
+            strs.append(t if variant == 0 else t.replace("\n", " ") + "\\n")      # several lines / one line
     return strs, nexh
 
 
